@@ -59,6 +59,17 @@ var c15Payloads = map[string][][]any{
 	"input":   {{"x", "1"}, {"", ""}},
 }
 
+// c15BadPayloads: one payload per event whose FIRST element has the wrong type and whose last is fine (plus one all-wrong for key):
+// the event is reported (conversion error) and its handler does not run - unless the handler declares no parameters at all.
+var c15BadPayloads = map[string][][]any{
+	"key":     {{1.0}},
+	"down":    {{"one", 2.0}},
+	"up":      {{true, 5.0}},
+	"move":    {{"a", 6.0}, {5.0, "b"}},
+	"animate": {{"x"}},
+	"input":   {{7.0, "v"}},
+}
+
 var c15Order = []string{"key", "down", "up", "move", "animate", "input"}
 
 func c15Params(name string, shape int) []pt.Param {
@@ -120,12 +131,15 @@ func c15Body(name string, ps []pt.Param, body int) []pt.Stmt {
 		return []pt.Stmt{pt.CallStmt{C: pt.C("bump", pt.N(10))}, pr(pt.V("cnt"))}
 	case 7:
 		return []pt.Stmt{pt.If{Conds: []pt.Expr{pt.Bin(">=", pt.V("cnt"), pt.N(2))}, Blocks: [][]pt.Stmt{{pr(pt.S("early")), pt.Return{}}}}, inc, pr(pt.V("cnt"))}
+	case 9:
+		// the global is updated, then shadowed by a local of the same name: the next delivery starts from the global again
+		return []pt.Stmt{inc, pt.Print(pt.S("g"), pt.V("cnt")), pt.InferDecl{Name: "cnt", X: pt.S("local")}, pr(pt.V("cnt"))}
 	default:
 		return []pt.Stmt{pt.InferDecl{Name: "loc", X: pt.N(0)}, pt.Assign{Target: pt.V("loc"), X: pt.Bin("+", pt.V("loc"), pt.N(1))}, inc, pr(pt.V("loc"))}
 	}
 }
 
-const c15Bodies = 9
+const c15Bodies = 10
 
 var c15Globals = []pt.Stmt{
 	pt.InferDecl{Name: "cnt", X: pt.N(0)},
@@ -226,6 +240,12 @@ func runC15(w *fw.Worker) {
 				alpha = append(alpha, c15Event{h.name, p})
 			}
 		}
+		var bad []c15Event
+		for _, h := range hs {
+			for _, pl := range c15BadPayloads[h.name] {
+				bad = append(bad, c15Event{h.name, pl})
+			}
+		}
 		var rec func(seq []c15Event)
 		rec = func(seq []c15Event) {
 			if len(seq) > 0 {
@@ -248,6 +268,14 @@ func runC15(w *fw.Worker) {
 			}
 			if len(seq) == depth {
 				return
+			}
+			if len(seq) > 0 && len(seq[len(seq)-1].Payload) > 0 && isBadPayload(seq[len(seq)-1]) {
+				return // an ill-typed delivery ends the history
+			}
+			if len(seq) < depth-1 || len(seq) == 0 {
+				for _, e := range bad {
+					rec(append(append([]c15Event(nil), seq...), e))
+				}
 			}
 			for _, e := range alpha {
 				if len(alpha) > 4 && len(seq) >= depth-1 && e.Name == seq[len(seq)-1].Name && len(seq) > 2 {
@@ -306,6 +334,15 @@ func replayC15(sub string, in json.RawMessage) *fw.Violation {
 	return v
 }
 
+func isBadPayload(e c15Event) bool {
+	for _, pl := range c15BadPayloads[e.Name] {
+		if fmt.Sprint(pl) == fmt.Sprint(e.Payload) {
+			return true
+		}
+	}
+	return false
+}
+
 func payloadExpr(p any) pt.Expr {
 	switch x := p.(type) {
 	case float64:
@@ -358,6 +395,11 @@ func checkC15(prog *pt.Prog, src string, seq []c15Event) (*fw.Violation, string)
 	if fmt.Sprint(refLens) != fmt.Sprint(io.EvTraceLen) || run.TraceString(ri.Trace) != run.TraceString(io.Trace) {
 		return &fw.Violation{Sub: "events", Signature: "trace-differs-from-reference", What: "cumulative effects after each event differ from the reference semantics", Input: in,
 			Expected: fmt.Sprint(refLens, " ", run.Show(ri.Trace)), Observed: fmt.Sprint(io.EvTraceLen, " ", run.Show(io.Trace))}, ""
+	}
+	for _, re := range refErrs {
+		if re != "ok" {
+			return nil, "" // a reported delivery has no procedure-call equivalent; the history ends here
+		}
 	}
 	// (2) equivalent procedure program on the real evaluator
 	var stmts []pt.Stmt
